@@ -383,10 +383,11 @@ class BaseRollPass(DiskElementUnit, DeformationUnit, ABC):
 
 
 def rotator_factory(roll_pass: BaseRollPass):
-    if roll_pass.rotation:
+    rotation = roll_pass.rotation
+    if rotation:
         return Rotator(
-            # make True determining from hook functions
-            rotation=roll_pass.rotation if roll_pass.rotation is not True else None,
+            # make True (also spelled as a numpy bool) determining from hook functions
+            rotation=rotation if not isinstance(rotation, (bool, np.bool_)) else None,
             label=f"Auto-Rotator for {roll_pass}",
             duration=0,
             length=0,
